@@ -203,6 +203,12 @@ def analyse(unit, g, vr):
                 sn = 'proof-hint:' + o.get('id', '')
                 if kind == 'assert':
                     kind = 'assert-hint'
+                    # an assertion of a proof block may carry a property tag like a clause does: `// [C04] #name`
+                    txt = ' '.join(t.get('text', '') for t in (p0.get('text') or []))
+                    mt = re.search(r'//\s*\[([C0-9 ]+)\]\s*#([\w-]+)', txt)
+                    if mt:
+                        rec['props_override'] = mt.group(1).split()
+                        rec['tagged_assert'] = mt.group(2)
             else:
                 lab = None
                 sn = ''
@@ -237,6 +243,8 @@ def analyse(unit, g, vr):
                 rec['id'] = '%s.safety.%s@%s' % (lab, kind, sn)
             else:
                 rec['id'] = '%s.%s@%s' % (lab, kind, sn)
+            if rec.get('tagged_assert'):
+                rec['id'] = '%s.%s' % (lab, rec['tagged_assert'])
         if rec['fn'] is None:
             undecided.append('cannot attribute diagnostic to a function: ' + (rendered or '')[:400])
             continue
